@@ -61,6 +61,9 @@ def canon(net):
 # then turns it into the requested net IN PLACE through the public mutators set_type / set_output.  Everything the
 # property then asks must be answered for the circuit as it is now.
 STALE = {"on": False, "seed": 0, "used": 0}
+# Representation seam: nodes that are not outputs carry no `output` attribute (circuits made by the fast Verilog reader
+# or wrapped around a hand-built graph look like this; Circuit.is_output() defines a missing mark as False).
+SPARSE = {"on": False}
 
 
 def _build_stale(cgmod, net):
@@ -112,6 +115,8 @@ def build(cgmod, net, sparse=False):
     Verilog reader or by Circuit(graph=g) from a hand-built graph (is_output() treats a missing key as False)."""
     if STALE["on"] and not sparse:
         return _build_stale(cgmod, net)
+    if SPARSE["on"]:
+        sparse = True
     c = cgmod.Circuit(name=net["name"])
     g = c.graph
     for n, (t, fi, o) in net["nodes"].items():
